@@ -407,6 +407,7 @@ class MasterSpec(Common):
 
     def m_queue_put(self, I, recv, args, kwargs, star):
         I.st.ghost["queued"] = I.lift(args[0])
+        I.st.ghost["heap_when_queued"] = I.st.h.copy()
         return NONE
 
     def m_as_dict(self, I, recv, args, kwargs, star):
@@ -602,6 +603,12 @@ def h_enqueue(spec):
         if want:
             s2.oblige(I, "enqueue/returned-future-is-stored-under-the-queued-job-id",
                       z3.And(z3.Select(ddom(st.h, s2.PENDING), jid), z3.Select(dval(st.h, s2.PENDING), jid) == I.lift(out[1]), V.is_obj(I.lift(out[1]))))
+            # ordering: once the tuple is on the queue the master may publish the job and receive its status at any moment, so the
+            # future must already be registered when put() is called (a status for an unregistered job id is dropped)
+            hq = st.ghost["heap_when_queued"]
+            s2.oblige(I, "enqueue/the-future-is-registered-before-the-job-becomes-visible-on-the-queue",
+                      z3.And(z3.Select(ddom(hq, s2.PENDING), jid), z3.Select(dval(hq, s2.PENDING), jid) == I.lift(out[1])),
+                      meta={"witness": "status-before-registration"})
             kk = fresh("other_job")
             s2.oblige(I, "enqueue/other-pending-futures-untouched", z3.Implies(kk != jid, z3.And(z3.Select(ddom(st.h, s2.PENDING), kk) == z3.Select(ddom(h0, s2.PENDING), kk),
                                                                                                  z3.Select(dval(st.h, s2.PENDING), kk) == z3.Select(dval(h0, s2.PENDING), kk))), hints=[kk])
@@ -643,6 +650,8 @@ def replay(ob):
         fails = [f for f in fails if f.get("class", "").startswith("falsy-data")]
     elif w == "failing-job":
         fails = [f for f in fails if "failing-job" in f.get("class", "")]
+    elif w == "status-before-registration":
+        fails = [f for f in fails if "status-delivered-before-enqueue-returned" in f.get("class", "")]
     payload["native"] = {"failures": fails[:5]}
     return bool(fails), payload
 
